@@ -87,6 +87,11 @@ class Tr:
             if d in self.consts:
                 return '(EConst %s)' % const_value(self.consts[d])
             return '(EVar %s)' % cstring(d)
+        if isinstance(e, ast.ListComp) and len(e.generators) == 1 and len(e.generators[0].ifs) == 1 and not e.generators[0].is_async \
+                and isinstance(e.generators[0].target, ast.Name):
+            # [f(x) for x in xs if c(x)]: the enumerate-filter with an unused index
+            g = e.generators[0]
+            return '(EEnumFilter "$i" %s %s %s %s)' % (cstring(g.target.id), self.expr(g.ifs[0]), self.expr(e.elt), self.expr(g.iter))
         if isinstance(e, ast.ListComp):
             if len(e.generators) != 1 or e.generators[0].ifs or e.generators[0].is_async or not isinstance(e.generators[0].target, ast.Name):
                 raise Untranslatable('comprehension other than [f(x) for x in xs]')
@@ -273,6 +278,8 @@ class Tr:
             if e.keywords:
                 raise Untranslatable('keyword arguments')
             if isinstance(f, ast.Name):
+                if f.id == 'str' and len(e.args) == 1:
+                    return '(ECall "str" [%s])' % self.expr(e.args[0])        # str(x): a primitive of the tie (the identity on strings)
                 if f.id == 'len' and len(e.args) == 1:
                     return '(ELen %s)' % self.expr(e.args[0])
                 if f.id == 'int' and len(e.args) == 1 and isinstance(e.args[0], ast.BinOp) and isinstance(e.args[0].op, ast.Div):
@@ -611,6 +618,7 @@ FUNCS = [
     ('g_Fminus', 'localcider/backend/sequence.py', 'Sequence', 'Fminus', []),
     ('g_FCR', 'localcider/backend/sequence.py', 'Sequence', 'FCR', []),
     ('g_NCPR', 'localcider/backend/sequence.py', 'Sequence', 'NCPR', []),
+    ('g_permutant', 'localcider/backend/sequence.py', 'Sequence', '__permutant_from_reduced_seq', []),
     ('g_sigma', 'localcider/backend/sequence.py', 'Sequence', 'sigma', []),
     ('g_deltaForm', 'localcider/backend/sequence.py', 'Sequence', 'deltaForm', []),
     ('g_delta', 'localcider/backend/sequence.py', 'Sequence', 'delta', []),
